@@ -764,3 +764,51 @@ Proof.
   destruct (find (fun m => rounds_to d m o) mids) as [m|] eqn:F; [|exact I].
   apply find_some in F. exists m. exact F.
 Qed.
+
+(* ------------------------------------------------------------------ disjunctions *)
+Lemma somes_in {A} (l : list (option A)) a : In (Some a) l -> In a (somes l).
+Proof.
+  unfold somes. intros H. apply in_flat_map. exists (Some a). split; [exact H|left; reflexivity].
+Qed.
+
+Theorem check_or_sound d hs conds out :
+  check_or d hs conds out = true ->
+  exists mid : list mcond,
+    (forall rho, defined_all rho conds -> Forall (mdefined rho) mid ->
+                 (Exists (sat rho) conds <-> Exists (msat rho) mid)) /\
+    (forall m, In m mid -> exists o, In o out /\ rounded d m o) /\
+    (forall o, In o out -> exists m, In m mid /\ rounded d m o).
+Proof.
+  unfold check_or. intros H. apply andb_true_iff in H. destruct H as [H1 H2].
+  rewrite forallb_forall in H1, H2.
+  exists (or_mids d hs conds out).
+  assert (Mid : forall m, In m (or_mids d hs conds out) <->
+                          exists c o, In c conds /\ In o out /\ check_under d [] hs c o = Some m).
+  { intros m. unfold or_mids. rewrite in_flat_map. split.
+    - intros (c & Hc & Hm). apply in_somes' in Hm. apply in_map_iff in Hm. destruct Hm as (o & E & Ho). eauto.
+    - intros (c & o & Hc & Ho & E). exists c. split; [exact Hc|]. apply somes_in. apply in_map_iff. eauto. }
+  split; [|split].
+  - intros rho Dc Dm. unfold defined_all in Dc. rewrite Forall_forall in Dc, Dm. rewrite !Exists_exists. split.
+    + intros (c & Hc & Sc). specialize (H1 c Hc). apply existsb_exists in H1. destruct H1 as (o & Ho & Cv).
+      unfold covered_by in Cv. destruct (check_under d [] hs c o) as [m|] eqn:E; [|discriminate].
+      assert (Hm : In m (or_mids d hs conds out)) by (apply Mid; eauto).
+      exists m. split; [exact Hm|]. destruct (check_under_sound _ _ _ _ _ _ E) as [_ Eq].
+      apply (Eq rho); [constructor|apply Dc; exact Hc|apply Dm; exact Hm|exact Sc].
+    + intros (m & Hm & Sm). pose proof Hm as Hm'. apply Mid in Hm'. destruct Hm' as (c & o & Hc & Ho & E).
+      exists c. split; [exact Hc|]. destruct (check_under_sound _ _ _ _ _ _ E) as [_ Eq].
+      apply (Eq rho); [constructor|apply Dc; exact Hc|apply Dm; exact Hm|exact Sm].
+  - intros m Hm. apply Mid in Hm. destruct Hm as (c & o & Hc & Ho & E). exists o. split; [exact Ho|].
+    exact (proj1 (check_under_sound _ _ _ _ _ _ E)).
+  - intros o Ho. specialize (H2 o Ho). apply existsb_exists in H2. destruct H2 as (c & Hc & Cv).
+    unfold covered_by in Cv. destruct (check_under d [] hs c o) as [m|] eqn:E; [|discriminate].
+    exists m. split; [apply Mid; eauto|]. exact (proj1 (check_under_sound _ _ _ _ _ _ E)).
+Qed.
+
+(* the elimination that is right for a conjunction is wrong for a disjunction, and the checker sees it: x + y = 1 or
+   x + y <= 1.5 printed as "x + y = 1" alone (the library before D21p) is rejected, the full disjunction accepted *)
+Example check_or_rejects_dropped_disjunct :
+  let x := EVar "( x ?a )" in let y := EVar "( y ?a )" in
+  let c1 := {| c_op := CEq; c_l := EBin OAdd x y; c_r := ENum 1 |} in
+  let c2 := {| c_op := CLe; c_l := EBin OAdd x y; c_r := ENum (3 # 2) |} in
+  check_or 2 [] [c1; c2] [c1] = false /\ check_or 2 [] [c1; c2] [c2; c1] = true /\ check_pre 2 [] [c1; c2] [c1] = true.
+Proof. vm_compute. repeat split; reflexivity. Qed.
